@@ -28,9 +28,12 @@ claim("C03",
       "(in a stratified ECMAScript grammar written from ECMA-262) exactly the intended JavaScript tree, so precedence/associativity/parenthesisation are right for "
       "all nestings; its side conditions are decide-checked on the level/arm tables re-extracted from the Rust source on every run. Model tied by byte-equality of "
       "value + hoisted statements against the real generator (exhaustive depth-2 operator pairs + random); real parser trees compared with intended trees; "
-      "V8 evaluates generated code vs a reference evaluation of the intended tree over an edge-value data pool.",
+      "V8 evaluates generated code vs a reference evaluation of the intended tree over an edge-value data pool (incl. numeric literals at the edges of every "
+      "representation). parse_print: a token-level model of the expression parser (GE/Model/ExprParse.lean, compared with the real parser on every generated source) "
+      "reads back every printed expression as the tree that was printed, for every printable expression.",
       "Trusted: Lean kernel; axioms ⊆ {propext, Classical.choice, Quot.sound}; GE/Spec/JsGrammar.lean; the extractors; harness hook proc_gen_expr; V8. "
-      "Not yet proved: evaluation semantics (gen_preserves) and parser soundness are covered by the differential oracle only; lexing of concatenated spellings. "
+      "Not yet proved: evaluation semantics (gen_preserves: the value of the generated JavaScript) is covered by the V8 oracle only; lexing of concatenated "
+      "spellings is tested (corr:lex_rt), not proved. "
       "Known finding D14 (array spread via concat).",
       "Lean 4 proof (mutual structural induction over the AST, table side conditions by decide) + differential correspondence + V8 oracle")
 
@@ -152,16 +155,20 @@ claim("C01",
       "Lean 4 proof (partial: scanner arithmetic, recovery-loop progress) + isolated-worker totality and scaling runs")
 
 claim("C14",
-      "PARTIAL proof. Lean 4 theorem str_derives (mutual structural recursion over the expression AST): for every expression, every accepted level, the tokens printed by "
-      "the model of expression_strigify_write derive exactly that expression in the WXML expression grammar whose precedence levels are the parser's own (parse_left_to_right! "
-      "chain re-extracted each run, parse_chain_matches_wLevel; operator texts / operand levels of every arm re-extracted, unArm_ok / binArm_ok / condArm_ok): "
-      "parenthesisation by ExpressionLevel is sufficient for every nesting. decode_escBody / decode_escQuote (for EVERY string, the text written by the escapers decodes "
-      "back to it), escBody_safe / escQuote_safe. Models of the expression printer, both escapers and parse_next_entity tied by differential runs. Oracle: print(parse(t)) is a "
-      "fixpoint after one round, gets no new diagnostic above Note, and its generated code renders and updates exactly like the original under the real runtime — over "
-      "generated templates, mutated ones, every operator pair x operand position as a binding under four association-separating environments, delicate shapes, and mangling.",
-      "Trusted: Lean kernel; axioms ⊆ {propext, Classical.choice, Quot.sound}; extractors; differential ties; WHATWG entity table from python; node runner. Not proved: that the "
-      "parser inverts the grammar (oracle: parser tree == intended tree), mixture splitting, the {{ protection, the tag/attribute printer, scope mangling (oracle only).",
-      "Lean 4 proof (printed expression derives its tree in the parser's grammar; escape/decode round trip) + round-trip behaviour oracle under the real runtime")
+      "PARTIAL proof. Lean 4 theorems: (1) parse_print (mutual structural recursion over the expression AST, ~1000 lines): a token-level model of the expression parser "
+      "(one function per precedence level as in parse/expr.rs, member / index / call chains, unary operators, conditionals, object / array literals with spreads, holes and "
+      "shorthand fields; compared with the real parser on ~10k sources per run) applied to the tokens the printer model writes returns the printed tree and consumes every "
+      "token, for EVERY printable expression and every sufficient fuel: print followed by parse is the identity on binding expressions (parse_print_id); (2) str_derives: the "
+      "printed tokens derive the expression in the WXML grammar with the parser's levels (parse_left_to_right! chain and every arm re-extracted each run); (3) "
+      "mixture_roundtrip: the value parser reads the printed form of ANY sequence of text pieces and bindings back as the same pieces (text containing {{, text ending in { "
+      "before a binding, <, \", &, look-alike references), given that bindings are read back (which (1) establishes at the token level); (4) decode_escBody / decode_escQuote "
+      "/ *_safe: every string survives escaping + entity decoding and cannot end its context. Models of the expression printer, the expression parser, the value printer / "
+      "parser, both escapers and parse_next_entity tied by differential runs. Oracle: print(parse(t)) is a fixpoint after one round, gets no new diagnostic above Note, and "
+      "its generated code renders and updates exactly like the original under the real runtime - over generated templates, mutated ones, every operator pair x operand "
+      "position as a binding under four association-separating environments, delicate shapes, text mixtures, and mangling.",
+      "Trusted: Lean kernel; axioms within {propext, Classical.choice, Quot.sound}; extractors; differential ties; WHATWG entity table from python; node runner. Not proved: "
+      "lexing (spelled tokens -> tokens: tested by corr:lex_rt and corr:wparse-printed), the tag / attribute printer, scope mangling (oracle only).",
+      "Lean 4 proof (print-then-parse identity on expressions at the token level; mixture round trip; printed expression derives its tree; escape/decode round trip) + round-trip behaviour oracle under the real runtime")
 claim("C15",
       "PARTIAL proof. Lean 4 obligations re-checked against tables extracted each run: levels_as_documented (ParseErrorKind::level equals the documented table), "
       "structural_defects_reach_documented_level, prevent_success_iff, and the position discipline (position_shapes, try_parse_restores + skipBytes_eq_advance / advance_spec / "
